@@ -37,6 +37,28 @@ def make_spec(run_seed, tier, prop, choice_weights=None, forced_prob=0.0, branch
         if family:
             cfg["family"] = family
         text, tags = archetypes.gen_molecule(rnd, cfg, archetype)
+    # related inputs (gbsim/siblings.py): in some runs the audited input itself is a respelling (tokens written in another atom
+    # order: descriptors in nested branches, after ring closures, ...); in some runs a related input is generated first in the
+    # same process, unaudited, so that state keyed by part of a string could collide (warm-up)
+    rs = random.Random(run_seed ^ 0x51B1)
+    if "corpus" not in tags and rs.random() < 0.12:
+        from .. import siblings
+
+        alt = siblings.respell(rs, text)
+        if alt is not None:
+            text = alt
+            tags = set(tags) | {"respelled"}
+    warmup = None
+    if rs.random() < 0.15:
+        from .. import siblings
+
+        kind = rs.choice(["respell", "respell", "retune", "other"])
+        if kind == "respell":
+            warmup = siblings.respell(rs, text)
+        elif kind == "retune":
+            warmup = siblings.retune(rs, text)
+        else:
+            warmup = archetypes.gen_molecule(rs, {"branchy": True, "safe_dist": True, "allow_illposed": False})[0]
     pols = CHOICE_POLICIES
     w = choice_weights or [3, 3, 2, 2, 1, 3, 1, 1]
     cp = rnd.choices(pols, weights=w)[0]
@@ -48,6 +70,8 @@ def make_spec(run_seed, tier, prop, choice_weights=None, forced_prob=0.0, branch
         "cap_mass": rnd.choice([300, 600, 1200]),
         "forced": None,
     }
+    if warmup is not None:
+        spec["warmup"] = {"text": warmup, "seed": rs.randrange(1000)}
     if text.startswith("{[]") and text.count("{") == 1 and text.rstrip().endswith("|") and "[]}" in text and rnd.random() < 0.35:
         spec["entry"] = "stochastic"  # the same string through the user-facing Stochastic class
     if "hub" in tags:
@@ -82,6 +106,26 @@ def _exc_features(out):
     return feats
 
 
+def _warmup(wu):
+    """Generate a related input once, unaudited, in this process before the audited run: whatever it leaves behind in the
+    library (module-level caches, class attributes) is the history the audited generation has to be independent of."""
+    import numpy as np
+
+    from .. import boot
+    from ..seams import World
+    from ..simrng import Scheduler, SimAbort
+
+    g = boot.load()
+    w = World(Scheduler(1), embed="stub")
+    try:
+        with w:
+            g.Molecule(wu["text"]).generate(rng=np.random.default_rng(wu["seed"]))
+    except SimAbort:
+        pass
+    except Exception:
+        pass
+
+
 def execute(spec, props=None):
     props = tuple(props or [spec["prop"]])
     text = spec["text"]
@@ -101,6 +145,9 @@ def execute(spec, props=None):
             # outside C06's quantifier (well-posed molecules): counted, not run
             return {"violations": [], "stats": {"runs": 1, "illposed_input_skipped": 1}, "sig": None, "nontrivial": False,
                     "sample": {"input": text, "skipped": why}, "digest": None, "trace": []}
+    if spec.get("warmup"):
+        _warmup(spec["warmup"])
+        stats["warmup_generations"] = 1
     if forced:
         if forced["mode"] == "values":
             forced_values = list(forced["values"])
@@ -180,7 +227,7 @@ def execute(spec, props=None):
         "entry:" + spec.get("entry", "molecule"): 1,
     })
     for t in spec.get("tags", []):
-        if t.startswith(("arch:", "family:", "start:", "end:", "weights:")) or t in ("corpus", "hub", "connector"):
+        if t.startswith(("arch:", "family:", "start:", "end:", "weights:")) or t in ("corpus", "hub", "connector", "respelled"):
             stats["tag:" + t] = stats.get("tag:" + t, 0) + 1
     if out.exc is not None:
         stats["exception:" + type(out.exc).__name__] = 1
